@@ -46,7 +46,7 @@ def e2e_plan(tier, seed):
     """shards on a REAL server process tree (vf/e2e.py)"""
     out = []
     for i in range(1 if tier == "quick" else 6):
-        out += [{"mode": "e2e", "e2e": "wire", "backend": b, "seed": seed * 7919 + i, "nevents": 60 if tier == "quick" else 200} for b in ("sql", "lmdb")]
+        out += [{"mode": "e2e", "e2e": "wire", "backend": b, "seed": seed * 7919 + i + j, "nevents": 60 if tier == "quick" else 200} for j, b in enumerate(("sql", "lmdb"))]
     return out
 
 
